@@ -179,8 +179,10 @@ pub struct Body {
     /// queries issued before the threads start (warm-up), and whether the TTL elapses afterwards
     pub warm: &'static [&'static str],
     pub expire: bool,
-    /// replace this zone by version 2 (new mtime) after warm-up
-    pub replace: Option<usize>,
+    /// replace this zone by version 2 after warm-up; the second component is the
+    /// modification time of the replacement (newer or OLDER than the original's
+    /// 1_600_000_000: a restored backup, `cp -p`, a tzdata downgrade)
+    pub replace: Option<(usize, u64)>,
     /// per-thread scripts: a query, or "!reset"
     pub threads: &'static [&'static [&'static str]],
 }
@@ -193,7 +195,8 @@ pub const BODIES: &[Body] = &[
     Body { name: "H3b-expired-all", warm: &["a/Aaa", "Bbb", "Ccc"], expire: true, replace: None, threads: &[&["CCC"], &["A/AAA"], &["bbb"]] },
     Body { name: "H4-reset-vs-get", warm: &["Bbb"], expire: false, replace: None, threads: &[&["!reset"], &["Bbb"], &["ccc"]] },
     Body { name: "H5-unknown-vs-known", warm: &[], expire: true, replace: None, threads: &[&["No/Such"], &["Bbb"], &["a/aaa"]] },
-    Body { name: "H6-replaced-then-expired", warm: &["Bbb", "Ccc"], expire: true, replace: Some(1), threads: &[&["Bbb"], &["BBB"]] },
+    Body { name: "H6-replaced-then-expired", warm: &["Bbb", "Ccc"], expire: true, replace: Some((1, 1_600_000_777)), threads: &[&["Bbb"], &["BBB"]] },
+    Body { name: "H6b-replaced-by-older-file-then-expired", warm: &["Bbb", "Ccc"], expire: true, replace: Some((1, 1_500_000_000)), threads: &[&["Bbb"], &["BBB"]] },
     Body { name: "H7-two-ops-each", warm: &["Ccc"], expire: true, replace: None, threads: &[&["Bbb", "ccc"], &["CCC", "a/Aaa"]] },
 ];
 
@@ -219,11 +222,11 @@ pub fn run(body: &Body, backend: Backend, bound: usize, root: PathBuf, max_threa
             let got = db.get(q);
             check(&nm, q, &got, versions);
         }
-        if let Some(n) = replace {
+        if let Some((n, mtime)) = replace {
             versions[n] = 2;
             match backend {
-                Backend::Dir => setup_dir(&root, versions, 1_600_000_777),
-                Backend::Cat => setup_concat(&root.join("tzdata"), versions, 1_600_000_777),
+                Backend::Dir => setup_dir(&root, versions, mtime),
+                Backend::Cat => setup_concat(&root.join("tzdata"), versions, mtime),
             }
         }
         if expire {
